@@ -201,7 +201,10 @@ func run(c *core.Ctx) {
 			if c.Expired() {
 				return false
 			}
-			caseNo, _ := c.Begin()
+			caseNo, run := c.Begin()
+			if c.Skip(caseNo, run, Input{Kind: "pos", Text: text}) {
+				return true
+			}
 			c.Exec()
 			c.Edge(1)
 			c.StateN(1)
@@ -241,9 +244,15 @@ func run(c *core.Ctx) {
 				return
 			}
 			if r := rfcread.Parse(s); r.Err == "" && r.Excluded == "" && len(r.Stmts) > 0 {
-				caseNo, _ := c.Begin()
+				caseNo, run := c.Begin()
+				if c.Skip(caseNo, run, Input{Kind: "fault", Text: s, Fault: "template"}) {
+					run = false
+				}
 				c.StateN(1)
 				for _, in := range inject(s) {
+					if !run {
+						break
+					}
 					c.Exec()
 					c.Edge(1)
 					// the mutated text itself must stay inside the claim
